@@ -339,7 +339,7 @@ func genC11(g *G) {
 			for v := 0; v < size; v++ {
 				ops = append(ops, "a0,"+I(v))
 			}
-			ops = append(ops, "l0", "k0")
+			ops = append(ops, "l0", "k0", "h0,"+I(size-1), "h0,"+I(size), "h0,0", "h0,-1", "h0,"+I(size/2), "h0,"+I(size-2))
 			for v := size - 1; v >= keep; v-- {
 				ops = append(ops, "d0,"+I(v))
 				if v == size/4 || v == size/4+1 || v == keep {
